@@ -11,6 +11,7 @@
 """
 from __future__ import annotations
 
+from copy import deepcopy
 from itertools import product
 
 from vf.gen import alpha as G
@@ -31,7 +32,7 @@ ASSUMPTIONS = [
     "exempt, as C16 states",
 ]
 REQUIRED = ["copy_equal_independent", "rebuild_equal_independent", "mutation_isolated",
-            "ids_stable_step", "group_members_tracked"]
+            "ids_stable_step", "group_members_tracked", "export_reusable"]
 KF_FIELD = "C16:Ace:field_objects_rebuilt_without_uuid_note"
 KF_ANY = "C16:Address:ios_prefix_0.0.0.0/0_copy_renders_any"
 FIELD_NAMES = {"protocol", "srcaddr", "srcport", "dstaddr", "dstport", "option"}
@@ -182,6 +183,7 @@ def _copy_case(cls, text, kwargs, ctx, members=None, prepare=None):
         return
     if len(reach(obj)) > 1:
         ctx.nt((cls, text, str(sorted(kwargs.items())), str(members)))
+    all_ok = True
     for how, make in (("copy", lambda: obj.copy()), ("rebuild", lambda: X(**obj.data()))):
         try:
             other = make()
@@ -217,9 +219,48 @@ def _copy_case(cls, text, kwargs, ctx, members=None, prepare=None):
                 kf = KF_ANY
             ctx.viol(f"{cls}.{how}:" + "+".join(sorted(bad)) + (":ios_prefix_any" if kf else ""), case,
                      {k: v[0] for k, v in bad.items()}, {k: v[1] for k, v in bad.items()}, kf=kf)
+            all_ok = False
             continue
         if _independent(obj, other, f"{cls}.{how}", case, ctx):
             ctx.out("copy_equal_independent" if how == "copy" else "rebuild_equal_independent")
+    # one exported dictionary used twice: building from it must neither consume it nor tie the
+    # two objects (or the dictionary) together
+    if not all_ok:
+        return
+    try:
+        exported = obj.data()
+        snap = deepcopy(exported)
+        first = X(**exported)
+        if exported != snap:
+            # the constructors normalise nested dictionaries of the export in place (they add the
+            # container's type / platform to item dictionaries); C16 does not forbid that, what
+            # matters is that the export can be used again
+            ctx.out("export_normalised_in_place")
+        second = X(**exported)
+    except Exception as ex:  # noqa
+        ctx.viol(f"{cls}.rebuild_twice:exception", case, repr(ex), "two equal objects")
+        return
+    if second.line != obj.line or second.data() != obj.data():
+        ctx.viol(f"{cls}.rebuild:second_object_from_the_same_data_differs", case, second.line, obj.line)
+        return
+    if members:
+        for path, _lines in members:
+            a, b = obj, second
+            for attr in path:
+                a = a[attr] if isinstance(attr, int) else getattr(a, attr)
+                b = b[attr] if isinstance(attr, int) else getattr(b, attr)
+            if [m.line for m in b.items] != [m.line for m in a.items]:
+                ctx.viol(f"{cls}.rebuild:second_object_from_the_same_data_lost_members", case,
+                         [m.line for m in b.items], [m.line for m in a.items])
+                return
+    r1, r2, rd_ = reach(first), reach(second), reach(exported)
+    shared = [(r1[i][0], "second" + r2[i][0]) for i in r1 if i in r2] + \
+             [(r1[i][0], "data" + rd_[i][0]) for i in r1 if i in rd_]
+    if shared:
+        ctx.viol(f"{cls}.rebuild:objects_built_from_one_export_share_state", case, shared[:5],
+                 "disjoint object graphs")
+        return
+    ctx.out("export_reusable")
 
 
 def _small(ctx, only):
